@@ -1056,7 +1056,6 @@ async fn write_task<B: DownlinkBackpressure>(
                 mut buffer,
             } => {
                 if registered.is_empty() {
-                    task_state.remove(WriteTaskState::NEEDS_SYNC);
                     let req_with_timeout = async {
                         if voted {
                             Ok(reg_requests.next().await)
@@ -1219,7 +1218,6 @@ async fn write_task<B: DownlinkBackpressure>(
                 let mut write_fut = pin!(write_fut);
                 'inner: loop {
                     let result = if registered.is_empty() {
-                        task_state.remove(WriteTaskState::NEEDS_SYNC);
                         match select(&mut write_fut, reg_requests.next()).await {
                             Either::Left((write_result, _)) => {
                                 SuspendedResult::SuspendedCompleted(write_result)
